@@ -457,8 +457,99 @@ def run(ctx):
     mism, viol = ctx.corr("find_duplicates", PRE_DD, cases, shard=1500, nontrivial=lambda o: len(o["selected"]) < len(o["assignment_indices"]))
     ctx.corr_report("find_duplicates", mism, viol, keyfn=lambda o: "dedup:identical-records-survive")
 
+    # ---- 5b. the whole per-read record flow of one chromosome against coq/Accounting.v
+    end_to_end_flow(ctx, quick, more)
+
     # ---- 6. pipeline: accounting_ok
     pipeline_accounting(ctx, quick)
+
+
+# ------------------------------------------------------------------------------------------------ end-to-end record flow (Accounting.v)
+TYN = {"unique": "Unique", "noninformative": "Noninformative", "intergenic": "Intergenic", "ambiguous": "Ambiguous",
+       "unique_minor_difference": "UniqueMinor", "inconsistent": "Inconsistent", "inconsistent_non_intronic": "InconsNonIntronic",
+       "inconsistent_ambiguous": "InconsAmbiguous", "suspended": "Suspended"}
+
+
+def stub_verdict(seed, region, ident):
+    """the stub per-region assigner: a deterministic verdict for (sub-region, alignment); None = dropped by a filter.
+       For two thirds of the alignments the verdict depends on the alignment only (the same in every sub-region), for the rest on the sub-region too."""
+    import random as _r
+    per_aln = _r.Random(seed * 1000003 + ident * 7919).random() < .67
+    r = _r.Random(seed * 1000003 + ident * 7919 + (0 if per_aln else region[0] * 31 + region[1]))
+    if r.random() < .12: return None
+    t = r.choice(["unique", "unique", "unique", "ambiguous", "unique_minor_difference", "inconsistent", "inconsistent", "inconsistent_non_intronic",
+                  "inconsistent_ambiguous", "noninformative", "intergenic"])
+    if t in ("noninformative", "intergenic"): isos = []
+    elif t in ("ambiguous", "inconsistent_ambiguous"): isos = r.sample([1, 2, 3, 4], 2)
+    else: isos = [r.choice([1, 1, 2, 3])]
+    genes = sorted(set(100 + (i + 1) // 2 for i in isos))
+    if t == "ambiguous": gty = "ambiguous" if len(genes) > 1 else "unique"
+    elif t == "inconsistent_ambiguous": gty = "inconsistent_ambiguous" if len(genes) > 1 else "inconsistent"
+    else: gty = t
+    return dict(ty=t, gty=gty, pen4=r.choice([0, 0, -4, -8]), isos=isos, genes=genes)
+
+
+def end_to_end_flow(ctx, quick, files):
+    """process -> forward_alignments -> stub assigner -> BasicReadAssignment records (ids in processing order) -> per-read lists ->
+       MultimapResolver.resolve -> the loader's rule (a read with several records keeps those whose resolved type is not `suspended`)"""
+    from src.multimap_resolver import MultimapResolver, MultimapResolvingStrategy
+    from src.isoform_assignment import BasicReadAssignment, ReadAssignmentType
+    rnd = ctx.rnd
+    import logging
+    lg = logging.getLogger('IsoQuant'); old_level = lg.level; lg.setLevel(logging.ERROR)      # the resolver logs every duplicate it drops
+    def crec(st):
+        return "(mkrec %s %s 1 %s %s (%s,%s) %s %s %s %s %s %s %s)" % (cz(st[0]), cz(st[1]), cz(st[3]), cz(st[4]), cz(st[5]), cz(st[6]), cbool(st[7]), cbool(st[8]),
+                                                                       TYN[ReadAssignmentType(st[9]).name], TYN[ReadAssignmentType(st[10]).name], cz(int(round(st[11] * 4))), czs(st[12]), czs(st[13]))
+    def cvd(v):
+        return "None" if v is None else "(Some (mkvd %s %s %s %s %s))" % (TYN[v["ty"]], TYN[v["gty"]], cz(v["pen4"]), czs(v["isos"]), czs(v["genes"]))
+    cases = []
+    sel = files[:(900 if quick else 6000)] + [f for f in grid_files(3, (0, 255), 2)][:200]
+    for n, file in enumerate(sel):
+        k = (SCALED, (256, 512, 1, 1, 1, 100), (16, 48, 2, 1, 1, 100))[n % 3]
+        if k[0] == 16: file = [(a[0] // 16, max(a[0] // 16 + 1, a[1] // 16)) + tuple(a[2:]) for a in file]
+        hm = bool(n % 2); seed = n
+        nreads = max(1, (len(file) + 1) // 2)
+        reads = {a[2]: rnd.randrange(nreads) + 1 for a in file}
+        with Consts(k):
+            out, _ = run_process([(FakeBam([FA(*a) for a in file]), "f0")], "c", 10 ** 7, hm)
+        if isinstance(out, tuple): continue                        # raising runs are the subject of the process+forward correspondence
+        byid = {a[2]: a for a in file}
+        vt = []; stream = []; objs = []; per_read = collections.OrderedDict()
+        for region, ids in out:
+            for i in ids:
+                v = stub_verdict(seed, region, i); vt.append(((region[0], region[1], i), v))
+                if v is None: continue
+                a = byid[i]; b = BasicReadAssignment.__new__(BasicReadAssignment)
+                b.__setstate__((len(objs), reads[i], "c", a[0] + 1, a[1], region[0], region[1], bool(a[3] & 256), False, ReadAssignmentType[v["ty"]].value,
+                                ReadAssignmentType[v["gty"]].value, v["pen4"] / 4.0, list(v["isos"]), list(v["genes"])))
+                stream.append(b.__getstate__()); objs.append(b); per_read.setdefault(reads[i], []).append(b)
+        stream = [tuple(list(x) if isinstance(x, list) else x for x in st) for st in stream]
+        failed = None
+        for rid, lst in per_read.items():
+            if len(lst) > 1:
+                try: MultimapResolver(MultimapResolvingStrategy.take_best).resolve(lst)
+                except Exception as e: failed = type(e).__name__
+        kept = [(b.assignment_id, (b.assignment_type.name, b.gene_assignment_type.name, bool(b.multimapper))) for b in objs
+                if len(per_read[b.read_id]) <= 1 or b.assignment_type != ReadAssignmentType.suspended]
+        if failed: kept = [(-1, ("suspended", "suspended", False))]
+        seen = set(); vt = [x for x in vt if not (x[0] in seen or seen.add(x[0]))]
+        term = "((%s, %s, %s, %s, %s, %s), (%s, %s))" % (
+            cconsts(k), cbool(hm), calns([a[:3] for a in file]), clist(sorted(reads.items()), civ), czs([a[2] for a in file if a[3] & 256]),
+            clist(vt, lambda x: "((%s, %s, %s), %s)" % (cz(x[0][0]), cz(x[0][1]), cz(x[0][2]), cvd(x[1]))),
+            clist(stream, crec), clist(kept, lambda x: "(%s, (%s, %s, %s))" % (cz(x[0]), TYN[x[1][0]], TYN[x[1][1]], cbool(x[1][2]))))
+        cases.append((term, {"constants": k, "high_memory": hm, "alignments(start,end,id,flag,ref,mapq)": file, "read_of_alignment": reads, "regions_and_ids": out,
+                             "stub_verdicts": vt, "save_stream(__getstate__)": stream, "kept(assignment_id,(type,gene_type,multimapper))": kept, "resolver_raised": failed}))
+    ctx.rule("end-to-end record flow of one chromosome (coq/Accounting.v): %d fake-alignment files (random placements with multiplicities and secondary flags, every multiset of 2 alignments on a 3-bin grid; three scalings of the constants, "
+             "both memory modes, 1-2 alignments per read id) through the REAL process / forward_alignments / storages, a stub assigner with a deterministic verdict per (sub-region, alignment) (12%% dropped; for a third of the alignments "
+             "it differs between sub-regions), real BasicReadAssignment records numbered in processing order, real MultimapResolver.resolve per read, and the loader's rule; the save stream and the kept (id, types, flag) list must equal "
+             "Accounting.acc_model; specification on the implementation's lists: every read with a record keeps one, two kept records of a read never share the key, every alignment the stub never drops has a record; "
+             "non-trivial = some record was suppressed" % len(cases))
+    lg.setLevel(old_level)
+    mism, viol = ctx.corr("end_to_end_record_flow", "From IQ Require Import Multimap2 Regions Accounting.\nOpen Scope Z_scope.\nDefinition check := acc_check.\nDefinition prop := acc_prop.\n",
+                          cases, shard=100, ctype="(Z*Z*Z*Z*Z*Z * bool * list (Z*Z*Z) * list (Z*Z) * list Z * list ((Z*Z*Z) * option vd)) * (list rec * list (Z * (atype*atype*bool)))", nontrivial=lambda o: len(o["kept(assignment_id,(type,gene_type,multimapper))"]) < len(o["save_stream(__getstate__)"]))
+    ctx.corr_report("end_to_end_record_flow", mism, viol)
+    ctx.assume.append("end_to_end_record_flow: the loader's rule (records of a multi-record read whose resolved type is `suspended` are dropped, the others carry the resolver's types and flag) is applied by the harness; "
+                      "the real ReadAssignmentLoader / multimapper files are corresponded by C08 (loader_path)")
 
 
 def split_clusters(file):
